@@ -1,4 +1,6 @@
 
+val negb : bool -> bool
+
 type nat =
 | O
 | S of nat
@@ -33,6 +35,15 @@ type z =
 | Z0
 | Zpos of positive
 | Zneg of positive
+
+module Nat :
+ sig
+  val leb : nat -> nat -> bool
+
+  val ltb : nat -> nat -> bool
+
+  val max : nat -> nat -> nat
+ end
 
 module Pos :
  sig
@@ -162,7 +173,17 @@ val map : ('a1 -> 'a2) -> 'a1 list -> 'a2 list
 
 val forallb : ('a1 -> bool) -> 'a1 list -> bool
 
+val filter : ('a1 -> bool) -> 'a1 list -> 'a1 list
+
+val firstn : nat -> 'a1 list -> 'a1 list
+
+val skipn : nat -> 'a1 list -> 'a1 list
+
 type byte = n
+
+val list_eqb : n list -> n list -> bool
+
+val index_byte : n -> n list -> nat option
 
 val escape_leader : n
 
@@ -171,6 +192,20 @@ val escape_base_json : (n list * n list) list
 val escape_all_chars : n list
 
 val escape_all_first_code : n
+
+val pause_gate_sleep_ms : n
+
+val pause_reader_sleep_ms : n
+
+val pause_protocol3 : n
+
+val pause_keepalive_written : n list
+
+val pause_keepalive_tested : n list
+
+val pause_colon : n
+
+val pause_timeout_unit_ms : n
 
 val leader : byte
 
@@ -225,3 +260,202 @@ val escape_all_pairs : n list -> n -> n list list list
 val builtin_json : bool -> n list list list
 
 val builtin_table : bool -> table
+
+type cfg = { cT : nat; cSL : nat; cGL : nat; cP3 : bool }
+
+val cfg_of : n -> z -> n -> cfg
+
+type timer = nat option
+
+val fresh : cfg -> timer
+
+val dec : timer -> timer
+
+val fired : timer -> bool
+
+type lclass =
+| CKeep
+| CGood
+| CNoColon
+| CWrongType
+
+val classify : n list -> n list -> lclass
+
+val payload_of : n list -> n list
+
+val keepalive_line : n list -> n list
+
+type rcore = { pausing : bool; pidx : nat; pbt : bool; stopped : bool;
+               tmo : timer; ntmo : timer; rbt : bool; pflag : bool }
+
+val upd_pflag : rcore -> bool -> rcore
+
+val upd_stopped : rcore -> rcore
+
+val upd_timers : rcore -> timer -> timer -> rcore
+
+val consume_rbt : rcore -> rcore
+
+val do_pause : rcore -> rcore
+
+val do_resume : cfg -> rcore -> bool -> rcore
+
+type phase =
+| PIdle
+| PGate of nat * nat
+| PRead of nat
+
+val is_read : phase -> bool
+
+type 'l ev =
+| ETick
+| EArrive of 'l
+| EPause
+| EResume
+| EStop
+| ECall
+
+type 'l out =
+| ODelivered of 'l * bool
+| OTimeout of bool
+| OStopped of bool
+| OBadLine of bool
+
+type 'l rstate = { core : rcore; queue : 'l list; ph : phase }
+
+val arm : cfg -> rcore -> rcore
+
+type 'l pre_res =
+| PExit of rcore * phase * 'l out option
+| PGo of rcore * nat
+
+val gate_check : cfg -> rcore -> nat -> 'a1 pre_res
+
+type entry =
+| AtTop
+| AfterGate of nat
+| GotLine of nat
+
+val pre : cfg -> entry -> rcore -> 'a1 pre_res
+
+val rd :
+  ('a1 -> lclass) -> cfg -> 'a1 list -> entry -> rcore -> 'a1 rstate * 'a1
+  out option
+
+val on_timeout :
+  ('a1 -> lclass) -> cfg -> 'a1 list -> nat -> rcore -> 'a1 rstate * 'a1 out
+  option
+
+val rtick :
+  ('a1 -> lclass) -> cfg -> 'a1 rstate -> 'a1 rstate * 'a1 out option
+
+val rstep :
+  ('a1 -> lclass) -> cfg -> 'a1 rstate -> 'a1 ev -> 'a1 rstate * 'a1 out
+  option
+
+val rrun :
+  ('a1 -> lclass) -> cfg -> 'a1 rstate -> 'a1 ev list -> 'a1 rstate * 'a1 out
+  option list
+
+val core0 : rcore
+
+val rinit : 'a1 rstate
+
+type sphase =
+| SIdle
+| SSleep of nat
+| SPassed
+
+type wout =
+| WKeep
+| WFrame
+| WStopErr
+
+val gate_enter : cfg -> bool -> bool -> sphase * wout list
+
+type sev =
+| SCall
+| STick
+| SWrite
+| SPauseEv
+| SResumeEv
+| SStopEv
+
+type sstate = { s_pausing : bool; s_stopped : bool; s_ph : sphase }
+
+val sphase_step : cfg -> bool -> bool -> sphase -> sev -> sphase * wout list
+
+val sstep : cfg -> sstate -> sev -> sstate * wout list
+
+val srun : cfg -> sstate -> sev list -> sstate * wout list
+
+val count_keeps : wout list -> nat
+
+type wline =
+| WLKeep
+| WLData of nat
+
+val cls_w : wline -> lclass
+
+val cls_a : nat -> lclass
+
+type csph =
+| CSGate of nat
+| CSIn of nat * sphase
+| CSPush of nat
+| CSDone
+
+type epi =
+| EpNone
+| EpPausing of nat
+| EpResumed of nat * nat
+
+type cstate = { cA : nat rstate; cAcked : nat; cS : csph; cCnt : nat;
+                cR : wline rstate; cDeliv : nat list; cErrA : bool;
+                cErrR : bool; cEp : epi }
+
+type cev =
+| XTick
+| XPause
+| XResume
+| XSCall
+| XSWrite
+| XSPush
+| XRCall
+| XATake
+
+val slack : cfg -> nat
+
+val set_A : cstate -> nat rstate -> nat -> bool -> cstate
+
+val feedA : cfg -> cstate -> nat ev -> cstate
+
+val feedR : cfg -> cstate -> wline ev -> cstate
+
+val set_S : cstate -> csph -> cstate
+
+val set_cnt : cstate -> nat -> cstate
+
+val set_ep : cstate -> epi -> cstate
+
+val emit : cfg -> cstate -> nat -> wout list -> cstate
+
+val our_pausing : cstate -> bool
+
+val our_stopped : cstate -> bool
+
+val s_move : cfg -> cstate -> nat -> sphase -> sev -> cstate
+
+val r_live : nat -> cstate -> bool
+
+val quiescent : nat -> nat -> cstate -> bool
+
+val ep_pause : epi -> epi
+
+val ep_tick : cfg -> epi -> epi
+
+val cstep : cfg -> nat -> nat -> nat -> cstate -> cev -> cstate option
+
+val crun : cfg -> nat -> nat -> nat -> cstate -> cev list -> cstate option
+
+val cinit : nat -> cstate
